@@ -7,6 +7,11 @@
 //   --random N --seed S [--pct D] [--randprog]   N random controlled executions
 //   --free N --seed S     N free-running executions (real threads, real blocking in acquire());
 //                         invoke/response events only (ResPoolFree.tla)
+//   --many N --seed S [--threads T] [--laps K]
+//                         N free-running rounds with MANY simultaneously live user threads (default
+//                         4*max(4,hardware threads)+8, at least 64) taking strict turns on K small
+//                         pools one after the other (odd rounds: one pool, threads exit after their
+//                         turn); same events / same specification as --free (see executeMany)
 //
 // Controlled mode: the moodycamel queue is a black box and every queue call is one step.  The
 // blocking wait_dequeue is never allowed to block the serialised run: the driver polls at the
@@ -18,7 +23,11 @@
 
 #include <unistd.h>
 
+#include <algorithm>
+#include <atomic>
 #include <chrono>
+#include <condition_variable>
+#include <mutex>
 #include <thread>
 
 #include "../ctl/ctl.h"
@@ -387,13 +396,277 @@ static bool executeFree(const Program& prog, int size, uint64_t seed, ctl::Trace
   return true;
 }
 
+// ------------------------------------------------------------------- many live user threads
+// The property quantifies over ALL threads that use a pool, not over a handful: "acquire() blocks
+// only while all resources are held" and "every resource is returned" must also hold when the pool
+// is shared by (many) more threads than it has resources / than the machine has hardware threads
+// (oversubscribed applications, several thread pools sharing one ResourcePool, ...).  The other
+// modes use 2-4 threads, so anything in the release/acquire path that is sized per thread (the
+// queue keeps per-thread producer state) was never exercised beyond a few threads.
+//
+// One round: a crew of `nth` real threads u1..u_nth, ALL alive at the same time, uses a sequence of
+// pools ("laps"; one pool at a time, `size` resources each, a new pool has never seen the threads).
+// Within a lap the threads take strict turns (one global step counter, each step is executed by
+// exactly one thread while all others wait) in the order
+//     acq(u1) .. acq(u_hold), rel(u1), acq(u_hold+1), rel(u2), ..., rel(u_nth)
+// so at most `hold` <= size handles are live at any moment and a resource is available whenever
+// acquire() is called: for a correct pool acquire() NEVER blocks here, whatever the OS scheduler
+// does.  Then one more thread (u0) acquires all `size` resources at once (nothing is held, so this
+// must not block either), releases them and destroys the pool (must return, every resource destroyed
+// exactly once) while the crew is still alive.  With `churn` every user thread exits right after its
+// release instead of staying alive (many distinct threads over time, few alive; single lap).
+// The invoke/response events are validated by TLC against ResPoolFree.tla like those of --free.
+// A thread that does not come back from acquire()/~ResourcePool() (no event for kManyStallSec
+// seconds although, by construction, nothing can be waiting for anything) is logged as a Hang
+// record, which the specification never accepts, and reported as a deadlock on the DRIVER line.
+static const int kManyStallSec = 10;
+
+struct ManyLap {
+  int size = 0, hold = 0;
+  std::vector<long long> acqPos, relPos; // [1..nth], global step numbers
+  long long finalPos = 0; // u0: acquire everything, destroy, next pool
+};
+
+struct ManyRound {
+  Exec* ex = nullptr;
+  int nth = 0;
+  bool churn = false;
+  std::string tag;
+  std::vector<ManyLap> laps;
+  std::mutex mu;
+  std::condition_variable cvExit;
+  std::vector<std::unique_ptr<std::condition_variable>> cvOf; // one per thread: no thundering herd
+  std::vector<int> owner; // owner[pos] = index of the thread that executes step pos
+  long long step = 0; // guarded by mu
+  bool exitFlag = false; // guarded by mu
+  std::atomic<bool> finished{false};
+  std::atomic<long long> progress{0};
+  std::atomic<int> inCall{-1}; // thread index that is inside acquire() / -2 inside ~ResourcePool()
+  std::atomic<int> liveHandles{0};
+  std::atomic<int> releasers{0}; // distinct threads that have returned a handle to the current pool
+  std::atomic<int> curSize{0};
+
+  static std::string name(int i) {
+    return "u" + std::to_string(i);
+  }
+  void evt(const char* e, int i, const std::string& extra) {
+    std::string l = std::string("{\"e\":\"") + e + "\",\"t\":\"" + name(i) + "\"";
+    if (!extra.empty())
+      l += "," + extra;
+    l += "}";
+    ex->tr->line(l);
+  }
+  void waitStep(int i, long long pos) {
+    std::unique_lock<std::mutex> lk(mu);
+    cvOf[i]->wait(lk, [&]() { return step == pos; });
+  }
+  void nextStep() {
+    std::unique_lock<std::mutex> lk(mu);
+    ++step;
+    progress.fetch_add(1);
+    cvOf[owner[step]]->notify_all();
+  }
+  Res* acquireLogged(int i, void* buf) {
+    evt("AcqInv", i, "");
+    inCall.store(i);
+    Res* h = new (buf) Res(ex->pool->acquire()); // must not block (see above)
+    inCall.store(-1);
+    liveHandles.fetch_add(1);
+    long long r = ex->indexOf(h->resource_);
+    evt("AcqRet", i, "\"r\":" + std::to_string(r));
+    long long id = h->get().id;
+    evt("Get", i, "\"r\":" + std::to_string(r) + ",\"id\":" + std::to_string(id));
+    progress.fetch_add(1);
+    return h;
+  }
+  void releaseLogged(int i, Res* h) {
+    evt("Rel", i, "\"r\":" + std::to_string(ex->indexOf(h->resource_))); // before it goes back
+    liveHandles.fetch_sub(1);
+    h->~Res();
+    progress.fetch_add(1);
+  }
+  void user(int i) { // i = 1..nth
+    alignas(Res) char buf[sizeof(Res)];
+    for (auto& lap : laps) {
+      waitStep(i, lap.acqPos[i]);
+      Res* h = acquireLogged(i, buf);
+      nextStep();
+      waitStep(i, lap.relPos[i]);
+      releaseLogged(i, h);
+      releasers.fetch_add(1);
+      nextStep();
+    }
+    if (!churn) { // stay alive: all nth threads are live users of the pool at the same time
+      std::unique_lock<std::mutex> lk(mu);
+      cvExit.wait(lk, [&]() { return exitFlag; });
+    }
+  }
+  void newPool(size_t k) {
+    Registry::get().reset();
+    ex->size = laps[k].size;
+    ex->pool = makePool(laps[k].size);
+    curSize.store(laps[k].size);
+    releasers.store(0);
+    ex->tr->line(
+        "{\"e\":\"Reset\",\"size\":" + std::to_string(laps[k].size) + ",\"tag\":\"" + tag + "_" +
+        std::to_string(k) + "\",\"threads\":" + std::to_string(nth) +
+        ",\"hold\":" + std::to_string(laps[k].hold) + ",\"churn\":" + (churn ? "true" : "false") + "}");
+  }
+  void coordinator() { // u0
+    newPool(0);
+    std::vector<std::thread> ths;
+    for (int i = 1; i <= nth; ++i)
+      ths.emplace_back([this, i]() { user(i); });
+    for (size_t k = 0; k < laps.size(); ++k) {
+      waitStep(0, laps[k].finalPos);
+      // nothing is held now: all `size` resources can be acquired at once
+      std::vector<std::unique_ptr<ThreadCtx>> bufs;
+      std::vector<Res*> hs;
+      for (int j = 0; j < laps[k].size; ++j) {
+        bufs.emplace_back(new ThreadCtx());
+        hs.push_back(acquireLogged(0, bufs.back()->buf[0]));
+      }
+      for (Res* h : hs)
+        releaseLogged(0, h);
+      inCall.store(-2);
+      ex->destroy(); // logs Destroy; ~ResourcePool() only if everything came back (else it would hang)
+      inCall.store(-1);
+      progress.fetch_add(1);
+      if (k + 1 < laps.size()) {
+        newPool(k + 1);
+        nextStep();
+      }
+    }
+    {
+      std::unique_lock<std::mutex> lk(mu);
+      exitFlag = true;
+      cvExit.notify_all();
+    }
+    for (auto& t : ths)
+      t.join();
+    finished.store(true);
+  }
+};
+
+// laps: (size, hold) per pool
+static bool executeMany(
+    const std::vector<std::pair<int, int>>& laps,
+    int nth,
+    bool churn,
+    const std::string& tag,
+    ctl::Trace& tr,
+    long long& pools) {
+  Exec* ex = new Exec();
+  ex->tr = &tr;
+  ex->freeMode = true;
+  ManyRound* m = new ManyRound(); // leaked together with ex when the round hangs
+  m->ex = ex;
+  m->nth = nth;
+  m->churn = churn;
+  m->tag = tag;
+  long long pos = 0;
+  for (auto& sh : laps) {
+    ManyLap lap;
+    lap.size = sh.first;
+    lap.hold = std::min(sh.second, std::min(sh.first, nth));
+    lap.acqPos.assign(nth + 1, -1);
+    lap.relPos.assign(nth + 1, -1);
+    for (int i = 1; i <= nth; ++i) {
+      if (i > lap.hold)
+        lap.relPos[i - lap.hold] = pos++;
+      lap.acqPos[i] = pos++;
+    }
+    for (int i = nth - lap.hold + 1; i <= nth; ++i)
+      lap.relPos[i] = pos++;
+    lap.finalPos = pos++;
+    m->laps.push_back(lap);
+  }
+  m->owner.assign(pos + 1, 0); // final steps (and the one after the last) belong to u0
+  for (auto& lap : m->laps)
+    for (int i = 1; i <= nth; ++i) {
+      m->owner[lap.acqPos[i]] = i;
+      m->owner[lap.relPos[i]] = i;
+    }
+  for (int i = 0; i <= nth; ++i)
+    m->cvOf.emplace_back(new std::condition_variable());
+  std::thread coord([m]() { m->coordinator(); });
+  long long last = -1;
+  auto tLast = std::chrono::steady_clock::now();
+  while (!m->finished.load()) {
+    std::this_thread::sleep_for(std::chrono::microseconds(500));
+    long long now = m->progress.load();
+    if (now != last) {
+      last = now;
+      tLast = std::chrono::steady_clock::now();
+    } else if (std::chrono::steady_clock::now() - tLast > std::chrono::seconds(kManyStallSec)) {
+      int who = m->inCall.load();
+      std::string where = who == -2 ? "~ResourcePool()" : who >= 0 ? "acquire()" : "?";
+      std::string nm = ManyRound::name(who < 0 ? 0 : who);
+      long long queued = (long long)ex->pool->pool_.size_approx();
+      tr.line(
+          "{\"e\":\"Hang\",\"t\":\"" + nm + "\",\"in\":\"" + where +
+          "\",\"held\":" + std::to_string(m->liveHandles.load()) +
+          ",\"size\":" + std::to_string(m->curSize.load()) +
+          ",\"releasers\":" + std::to_string(m->releasers.load()) + ",\"queued\":" + std::to_string(queued) + "}");
+      tr.flush();
+      printf(
+          "HANG %s: thread %s does not return from %s although only %d of %d resources are held "
+          "(%d live user threads, %d distinct threads have released a handle of this pool, %lld "
+          "resources in the queue)\n",
+          tag.c_str(),
+          nm.c_str(),
+          where.c_str(),
+          m->liveHandles.load(),
+          m->curSize.load(),
+          nth,
+          m->releasers.load(),
+          queued);
+      coord.detach(); // blocked for ever together with the user threads
+      return false;
+    }
+  }
+  coord.join();
+  pools += (long long)laps.size();
+  delete m;
+  delete ex;
+  return true;
+}
+
 int main(int argc, char** argv) {
   drv::Args a(argc, argv);
   ctl::Trace tr(a.str("out", "trace.ndjson"));
   drv::Totals tot;
   int size = (int)a.num("size", 2);
   Program prog = parseProg(a.str("prog", "t1:acq1,rel1;t2:acq1,rel1"));
-  if (a.has("free")) {
+  if (a.has("many")) {
+    long long n = a.num("many", 6);
+    uint64_t seed = (uint64_t)a.num("seed", 1);
+    uint64_t prng = seed * 15485863ULL + 11;
+    unsigned hw = std::thread::hardware_concurrency();
+    // "many" = well beyond everything that is plausibly sized by the number of resources or of
+    // hardware threads (small multiples of either), and beyond 64 in any case
+    int base = a.has("threads") ? (int)a.num("threads", 64) : std::max(64, 4 * std::max(4, (int)hw) + 8);
+    int nlaps = (int)a.num("laps", 5);
+    for (long long i = 0; i < n; ++i) {
+      bool churn = i % 2 == 1; // every second round: threads exit after their turn, one pool
+      std::vector<std::pair<int, int>> laps;
+      for (int k = 0; k < (churn ? 1 : nlaps); ++k) {
+        int sz = a.has("size") ? size : 1 + (int)((seed + (uint64_t)i + (uint64_t)k) % 4);
+        int hold = 1 + (int)(ctl::splitmix(prng) % (unsigned)sz); // 1..size live handles
+        laps.emplace_back(sz, hold);
+      }
+      int nth = base + (int)(ctl::splitmix(prng) % 9);
+      long long pools = 0;
+      bool ok = executeMany(laps, nth, churn, "many" + std::to_string(seed) + "_" + std::to_string(i), tr, pools);
+      tot.executions += ok ? pools : 1;
+      tot.completed += pools;
+      if (!ok) {
+        ++tot.deadlocks;
+        break; // threads are blocked for ever: this process cannot run another round
+      }
+    }
+    tot.steps = (long long)tr.lines();
+  } else if (a.has("free")) {
     long long n = a.num("free", 100);
     uint64_t seed = (uint64_t)a.num("seed", 1);
     uint64_t prng = seed * 104729 + 7;
